@@ -565,3 +565,395 @@ Qed.
 Example initialize_example :
   exists it idx used, initialize [repeat 1 32; repeat 2 32] 1 (repeat 2 32) 10 (repeat 7 32) = InitOk it idx used.
 Proof. Local Transparent CSPRNG_FUEL PICK_FUEL. do 3 eexists. vm_compute. reflexivity. Qed.
+
+(* ================================================================== completeness of a single Borromean ring *)
+(* sign => verify for ONE ring (the way the surjection and whitelist modules use Model/Borromean.v),
+   under the group premises [MathFacts].  Used by generate_verifies (C11) and sign_verifies (C16). *)
+Require Import Proofs.MathFacts Proofs.GroupLemmas.
+
+Lemma sj_length_be_enc : forall len x, length (be_enc len x) = len.
+Proof. induction len; intros; simpl; auto. rewrite app_length, IHlen. simpl. lia. Qed.
+Lemma sj_sha_round_len8 : forall s kw, length s = 8%nat -> length (sha_round s kw) = 8%nat.
+Proof. intros s kw H. do 9 (destruct s as [|? s]; try discriminate). destruct kw. reflexivity. Qed.
+Lemma sj_sha_rounds_len8 : forall l s, length s = 8%nat -> length (fold_left sha_round l s) = 8%nat.
+Proof. induction l; intros; simpl; auto. apply IHl, sj_sha_round_len8; auto. Qed.
+Lemma sj_sha_compress_len8 : forall s b, length s = 8%nat -> length (sha_compress s b) = 8%nat.
+Proof. intros. unfold sha_compress. rewrite map_length, combine_length, sj_sha_rounds_len8 by auto. rewrite H. reflexivity. Qed.
+Lemma sj_sha_blocks_len8 : forall f s bs, length s = 8%nat -> length (sha_blocks f s bs) = 8%nat.
+Proof. induction f; intros; simpl; auto. destruct (Nat.ltb (length bs) 64); auto. apply IHf, sj_sha_compress_len8; auto. Qed.
+Lemma sj_length_sha_out : forall s, length (sha_out s) = (4 * length s)%nat.
+Proof. unfold sha_out. induction s; cbn [flat_map]; [reflexivity|]. rewrite app_length, IHs, sj_length_be_enc. cbn [length]. lia. Qed.
+Lemma sj_length_sha256 : forall bs, length (sha256 bs) = 32%nat.
+Proof. intros. unfold sha256, sha256_from. rewrite sj_length_sha_out, sj_sha_blocks_len8; auto. Qed.
+
+Lemma bytes_eqb_refl : forall a, bytes_eqb a a = true.
+Proof. induction a; simpl; auto. rewrite Z.eqb_refl. exact IHa. Qed.
+
+Lemma firstn_app_len : forall {A} (a b : list A), firstn (length a) (a ++ b) = a.
+Proof. intros. rewrite firstn_app, Nat.sub_diag, firstn_all. simpl. apply app_nil_r. Qed.
+Lemma skipn_app_len_S : forall {A} (a b : list A) x, skipn (S (length a)) (a ++ x :: b) = b.
+Proof. induction a; intros; simpl; auto. apply IHa. Qed.
+
+Definition nz (x : Z) : bool := negb (x =? 0).
+Definition ninf (Q : point) : bool := negb (is_inf Q).
+
+Section Ring1.
+Variable P : Params.
+Hypothesis MF : MathFacts P.
+Variable m : bytes.
+Notation G := (Curve.G P).
+Notation pmul := (Curve.pmul P).
+Notation padd := (Curve.padd P).
+Notation pneg := (Curve.pneg P).
+Let n := cn P.
+
+Lemma sc_of_b32_range : forall h e ov, sc_of_b32 P h = (e, ov) -> 0 <= e < n.
+Proof.
+  intros h e ov H. unfold sc_of_b32 in H. inversion H; subst. apply Z.mod_pos_bound. apply (n_pos P MF).
+Qed.
+
+Lemma verify_ring_step : forall i j rem' ens sj s' pj pubs',
+  verify_ring P m i j (S (S rem')) ens false (sj :: s') (pj :: pubs') =
+  if (sj =? 0) || (ens =? 0) || is_inf pj then None else
+  if is_inf (bor_ecmult P pj ens sj) then None else
+  let '(ens', ov') := sc_of_b32 P (borromean_hash m (ser33 (bor_ecmult P pj ens sj)) i (j + 1)) in
+  match verify_ring P m i (j + 1) (S rem') ens' ov' s' pubs' with
+  | Some (t, evs, s'', pubs'') => Some (t, ens :: evs, s'', pubs'')
+  | None => None
+  end.
+Proof. reflexivity. Qed.
+Lemma verify_ring_last : forall i j ens sj s' pj pubs',
+  verify_ring P m i j 1 ens false (sj :: s') (pj :: pubs') =
+  if (sj =? 0) || (ens =? 0) || is_inf pj then None else
+  if is_inf (bor_ecmult P pj ens sj) then None else
+  Some (ser33 (bor_ecmult P pj ens sj), [ens], s', pubs').
+Proof. reflexivity. Qed.
+
+(* forward part of the ring (positions after the signer): verification retraces sign_fwd *)
+Lemma ring_fwd : forall s_t p_t j ens s0 p0 tmp,
+  length s_t = length p_t ->
+  (ens =? 0) = false -> (s0 =? 0) = false -> is_inf p0 = false ->
+  forallb nz s_t = true -> forallb ninf p_t = true ->
+  is_inf (bor_ecmult P p0 ens s0) = false ->
+  sign_fwd P m 0 (j + 1) (ser33 (bor_ecmult P p0 ens s0)) s_t p_t = Some tmp ->
+  exists evs, verify_ring P m 0 j (S (length s_t)) ens false (s0 :: s_t) (p0 :: p_t) = Some (tmp, evs, [], []).
+Proof.
+  induction s_t as [| s1 t IH]; intros p_t j ens s0 p0 tmp Hl He Hs Hp Hfs Hfp HR H.
+  - destruct p_t; [| discriminate]. cbn [sign_fwd] in H. inversion H; subst tmp.
+    cbn [length]. rewrite verify_ring_last. rewrite He, Hs, Hp, HR. cbn [orb]. eexists; reflexivity.
+  - destruct p_t as [| p1 pt]; [discriminate |]. cbn [length] in Hl. injection Hl as Hl.
+    cbn [forallb] in Hfs, Hfp. apply andb_true_iff in Hfs. apply andb_true_iff in Hfp.
+    destruct Hfs as [Hs1 Hfs]. destruct Hfp as [Hp1 Hfp].
+    apply negb_true_iff in Hs1. apply negb_true_iff in Hp1.
+    cbn [sign_fwd] in H.
+    cbn [length]. rewrite verify_ring_step. rewrite He, Hs, Hp, HR. cbn [orb].
+    destruct (sc_of_b32 P (borromean_hash m (ser33 (bor_ecmult P p0 ens s0)) 0 (j + 1))) as [ens' ov] eqn:Esc.
+    destruct ov; cbn [orb] in H; [discriminate |].
+    destruct (ens' =? 0) eqn:He'; [discriminate |].
+    destruct (is_inf (bor_ecmult P p1 ens' s1)) eqn:HR'; [discriminate |].
+    destruct (IH pt (j + 1) ens' s1 p1 tmp Hl He' Hs1 Hp1 Hfs Hfp HR' H) as [evs Hv].
+    rewrite Hv. eexists; reflexivity.
+Qed.
+
+(* backward part (positions before the signer): verification retraces sign_bwd and then continues *)
+Lemma ring_bwd : forall s_pre p_pre j ens ens_x s_r0 s_r p_r0 p_r tmp evs a b,
+  length s_pre = length p_pre ->
+  0 <= ens < n -> (ens =? 0) = false -> forallb nz s_pre = true -> forallb ninf p_pre = true ->
+  sign_bwd P m 0 j ens s_pre p_pre = Some ens_x ->
+  (0 <= ens_x < n /\ (ens_x =? 0) = false) /\
+  (verify_ring P m 0 (j + Z.of_nat (length s_pre)) (S (length s_r)) ens_x false (s_r0 :: s_r) (p_r0 :: p_r) = Some (tmp, evs, a, b) ->
+   exists evs', verify_ring P m 0 j (length s_pre + S (length s_r)) ens false (s_pre ++ s_r0 :: s_r) (p_pre ++ p_r0 :: p_r)
+                = Some (tmp, evs', a, b)).
+Proof.
+  induction s_pre as [| s0 t IH]; intros p_pre j ens ens_x s_r0 s_r p_r0 p_r tmp evs a b Hl Hr He Hfs Hfp H.
+  - destruct p_pre; [| discriminate]. cbn [sign_bwd] in H. inversion H; subst ens_x.
+    split; [auto |]. cbn [length app Nat.add]. replace (j + Z.of_nat 0) with j by lia. intros Hv. eauto.
+  - destruct p_pre as [| p0 pt]; [discriminate |]. cbn [length] in Hl. injection Hl as Hl.
+    cbn [forallb] in Hfs, Hfp. apply andb_true_iff in Hfs. apply andb_true_iff in Hfp.
+    destruct Hfs as [Hs0 Hfs]. destruct Hfp as [Hp0 Hfp].
+    apply negb_true_iff in Hs0. apply negb_true_iff in Hp0.
+    cbn [sign_bwd] in H.
+    destruct (is_inf (bor_ecmult P p0 ens s0)) eqn:HR; [discriminate |].
+    destruct (sc_of_b32 P (borromean_hash m (ser33 (bor_ecmult P p0 ens s0)) 0 (j + 1))) as [ens' ov] eqn:Esc.
+    destruct ov; cbn [orb] in H; [discriminate |].
+    destruct (ens' =? 0) eqn:He'; [discriminate |].
+    pose proof (sc_of_b32_range _ _ _ Esc) as Hr'.
+    destruct (IH pt (j + 1) ens' ens_x s_r0 s_r p_r0 p_r tmp evs a b Hl Hr' He' Hfs Hfp H) as [R1 R2].
+    split; [exact R1 |]. intros Hv.
+    replace (j + Z.of_nat (length (s0 :: t))) with (j + 1 + Z.of_nat (length t)) in Hv by (cbn [length]; lia).
+    destruct (R2 Hv) as [evs' Hv'].
+    cbn [length app Nat.add]. rewrite Nat.add_succ_r. rewrite verify_ring_step.
+    rewrite He, Hs0, Hp0, HR. cbn [orb]. rewrite Esc.
+    rewrite Nat.add_succ_r in Hv'. rewrite Hv'. eexists; reflexivity.
+Qed.
+
+(* the signer's position closes the ring: ens*(sec*G) + (k - ens*sec)*G = k*G *)
+Lemma ring_close : forall ens sec k, 0 <= ens < n -> 0 <= sec < n -> 0 <= k < n ->
+  bor_ecmult P (pmul sec G) ens (sc_add P (sc_neg P (sc_mul P ens sec)) k) = pmul k G.
+Proof.
+  intros ens sec k He Hs Hk. unfold bor_ecmult, sc_add, sc_neg, sc_mul.
+  pose proof (n_pos P MF) as Hn. subst n.
+  assert (Hb : 0 <= mmul (cn P) ens sec < cn P) by (unfold mmul; apply Z.mod_pos_bound; lia).
+  assert (Ha : 0 <= mneg (cn P) (mmul (cn P) ens sec) < cn P) by (unfold mneg; apply Z.mod_pos_bound; lia).
+  pose proof (oc_G P MF) as HG.
+  assert (HT : oc P (pmul ens (pmul sec G))) by (apply oc_pmul, oc_pmul; auto).
+  assert (HK : oc P (pmul k G)) by (apply oc_pmul; auto).
+  rewrite (pmul_madd P MF) by lia. rewrite (pmul_mneg P MF) by lia.
+  rewrite (pmul_mmul P MF) by lia.
+  rewrite <- (padd_assoc P MF) by (auto using oc_neg).
+  rewrite (padd_neg P MF) by auto. reflexivity.
+Qed.
+
+(* single ring: signer at position length s_pre, ring = s_pre ++ [signer] ++ s_suf *)
+Lemma ring1_sign_verifies : forall s_pre sx s_suf p_pre p_suf k sec e0 s',
+  length s_pre = length p_pre -> length s_suf = length p_suf ->
+  0 <= k < n -> 0 <= sec < n ->
+  forallb nz s_pre = true -> forallb nz s_suf = true ->
+  forallb ninf p_pre = true -> forallb ninf p_suf = true ->
+  is_inf (pmul sec G) = false ->
+  borromean_sign P (s_pre ++ sx :: s_suf) (p_pre ++ pmul sec G :: p_suf) [k] [sec]
+                 [length (s_pre ++ sx :: s_suf)] [length s_pre] 1 m = Some (e0, s') ->
+  borromean_verify P e0 s' (p_pre ++ pmul sec G :: p_suf) [length (s_pre ++ sx :: s_suf)] 1 m = true /\
+  exists snew, s' = s_pre ++ snew :: s_suf /\ 0 < snew < n /\ length e0 = 32%nat.
+Proof.
+  intros s_pre sx s_suf p_pre p_suf k sec e0 s' Hl1 Hl2 Hk Hsec Hf1 Hf2 Hf3 Hf4 Hpx H.
+  pose proof (n_pos P MF) as Hn. fold n in Hn.
+  set (s := s_pre ++ sx :: s_suf) in *. set (pubs := p_pre ++ pmul sec G :: p_suf) in *.
+  assert (Ls : length s = S (length s_pre + length s_suf)) by (unfold s; rewrite app_length; cbn [length]; lia).
+  assert (Lp : length pubs = length s) by (unfold pubs, s; rewrite !app_length; cbn [length]; lia).
+  assert (Fp0 : firstn (length s) pubs = pubs) by (rewrite <- Lp; apply firstn_all).
+  unfold borromean_sign in H. cbn [firstn length Nat.eqb negb sum_nat fold_right] in H.
+  rewrite Nat.add_0_r in H.
+  rewrite ?(firstn_all s), ?Fp0 in H.
+  destruct (sign_layout_ok s pubs [k] [sec] [length s] [length s_pre]); cbn [negb] in H; [| discriminate].
+  cbn [sign_pass1] in H.
+  destruct (is_inf (pmul k G)) eqn:HkG; [discriminate |].
+  rewrite ?(firstn_all s), ?Fp0 in H.
+  assert (Es : skipn (S (length s_pre)) s = s_suf) by apply skipn_app_len_S.
+  assert (Ep : skipn (S (length s_pre)) pubs = p_suf) by (unfold pubs; rewrite Hl1; apply skipn_app_len_S).
+  rewrite Es, Ep in H.
+  destruct (sign_fwd P m 0 (Z.of_nat (length s_pre) + 1) (ser33 (pmul k G)) s_suf p_suf) as [tmp |] eqn:Efwd; [| discriminate].
+  cbn [app] in H.
+  set (e0' := sha256 (tmp ++ m)) in *.
+  cbn [sign_pass2] in H.
+  destruct (sc_of_b32 P (borromean_hash m e0' 0 0)) as [ens0 ov0] eqn:Esc0.
+  destruct ov0; cbn [orb] in H; [discriminate |].
+  destruct (ens0 =? 0) eqn:He0; [discriminate |].
+  rewrite ?(firstn_all s), ?Fp0 in H.
+  assert (Fs : firstn (length s_pre) s = s_pre) by apply firstn_app_len.
+  assert (Fp : firstn (length s_pre) pubs = p_pre) by (unfold pubs; rewrite Hl1; apply firstn_app_len).
+  rewrite Fs, Fp, Es in H.
+  destruct (sign_bwd P m 0 0 ens0 s_pre p_pre) as [ensx |] eqn:Ebwd; [| discriminate].
+  set (snew := sc_add P (sc_neg P (sc_mul P ensx sec)) k) in *.
+  destruct (snew =? 0) eqn:Hsn; [discriminate |].
+  cbn [app] in H. rewrite app_nil_r in H. inversion H; subst e0 s'. clear H.
+  pose proof (sc_of_b32_range _ _ _ Esc0) as Hr0.
+  assert (Hsnr : 0 <= snew < n) by (unfold snew, sc_add, madd; fold n; apply Z.mod_pos_bound; lia).
+  split.
+  2:{ exists snew. split; [reflexivity |]. apply Z.eqb_neq in Hsn. split; [lia |]. unfold e0'. apply sj_length_sha256. }
+  (* verification *)
+  unfold borromean_verify, borromean_verify_ev. cbn [length Nat.ltb Nat.leb].
+  change (firstn 1 [length s]) with [length s].
+  rewrite Ls. cbn [verify_rings]. rewrite Esc0. unfold pubs.
+  (* the signer's position and the forward part *)
+  destruct (ring_bwd s_pre p_pre 0 ens0 ensx snew s_suf (pmul sec G) p_suf tmp
+              (ensx :: nil) [] [] Hl1 Hr0 He0 Hf1 Hf3 Ebwd) as [[Hrx Hex] _].
+  assert (Eclose : bor_ecmult P (pmul sec G) ensx snew = pmul k G) by (apply ring_close; auto).
+  assert (Hfwd : exists evs, verify_ring P m 0 (0 + Z.of_nat (length s_pre)) (S (length s_suf)) ensx false
+                               (snew :: s_suf) (pmul sec G :: p_suf) = Some (tmp, evs, [], [])).
+  { apply ring_fwd; auto.
+    - rewrite Eclose; exact HkG.
+    - rewrite Eclose. replace (0 + Z.of_nat (length s_pre) + 1) with (Z.of_nat (length s_pre) + 1) by lia. exact Efwd. }
+  destruct Hfwd as [evs Hfwd].
+  destruct (ring_bwd s_pre p_pre 0 ens0 ensx snew s_suf (pmul sec G) p_suf tmp evs [] [] Hl1 Hr0 He0 Hf1 Hf3 Ebwd) as [_ Hall].
+  destruct (Hall Hfwd) as [evs' Hv].
+  replace (S (length s_pre + length s_suf)) with (length s_pre + S (length s_suf))%nat by lia.
+  rewrite Hv. cbn [app].
+  rewrite firstn_all2 by (unfold e0'; rewrite sj_length_sha256; lia).
+  fold e0'. rewrite bytes_eqb_refl. reflexivity.
+Qed.
+End Ring1.
+
+(* ------------------------------------------------------------------ data layout of a written signature *)
+Require Import Proofs.BytesLemmas.
+
+Lemma sc_to_b32_length : forall s, length (sc_to_b32 s) = 32%nat.
+Proof. intros. apply be_enc_length. Qed.
+
+Lemma firstn_app_exact : forall {A} (a b : list A) k, length a = k -> firstn k (a ++ b) = a.
+Proof. intros; subst; apply firstn_app_len. Qed.
+
+(* the 32-byte chunks at offsets p + 32 i of  pre ++ enc(s_0) ++ enc(s_1) ++ ... ++ rest  (|pre| = p) *)
+Lemma chunks_flat_gen : forall (ss : list Z) (pre rest : bytes) p, length pre = p ->
+  map (fun i => firstn 32 (skipn (p + 32 * i)%nat (pre ++ flat_map sc_to_b32 ss ++ rest))) (seq 0 (length ss))
+  = map sc_to_b32 ss.
+Proof.
+  induction ss as [| s t IH]; intros pre rest p Hp; [reflexivity |].
+  cbn [length seq map flat_map]. f_equal.
+  - rewrite Nat.mul_0_r, Nat.add_0_r. subst p. rewrite skipn_app, Nat.sub_diag, skipn_all. cbn [app skipn].
+    rewrite <- app_assoc. apply firstn_app_exact, sc_to_b32_length.
+  - rewrite <- seq_shift, map_map.
+    rewrite <- (IH (pre ++ sc_to_b32 s) rest (p + 32)%nat) by (rewrite app_length, sc_to_b32_length; lia).
+    apply map_ext. intros i. rewrite <- !app_assoc. f_equal. f_equal. lia.
+Qed.
+
+Lemma chunks_of_written_sig : forall (e0 : bytes) (ss : list Z) (rest : bytes), length e0 = 32%nat ->
+  map (fun i => firstn 32 (skipn (32 + 32 * i)%nat (e0 ++ flat_map sc_to_b32 ss ++ rest))) (seq 0 (length ss))
+  = map sc_to_b32 ss.
+Proof. intros. apply chunks_flat_gen. assumption. Qed.
+
+Lemma be_val_sc_to_b32 : forall s, 0 <= s < 2 ^ 256 -> be_val (sc_to_b32 s) = s.
+Proof. intros s H. unfold sc_to_b32. apply be_val_enc. rewrite pow256_32. exact H. Qed.
+
+Lemma list_split_at : forall {A} (l : list A) i d, (i < length l)%nat ->
+  l = firstn i l ++ nth i l d :: skipn (S i) l /\ length (firstn i l) = i.
+Proof.
+  induction l; intros [| i] d H; cbn [length] in H; try lia.
+  - split; reflexivity.
+  - destruct (IHl i d ltac:(lia)) as [E L]. split; [cbn [firstn nth skipn app]; f_equal; exact E | cbn [firstn length]; f_equal; exact L].
+Qed.
+
+Lemma forallb_firstn : forall {A} (f : A -> bool) l k, forallb f l = true -> forallb f (firstn k l) = true.
+Proof.
+  induction l; intros [| k] H; cbn [firstn forallb] in *; auto.
+  apply andb_true_iff in H. destruct H as [H1 H2]. rewrite H1. cbn [andb]. auto.
+Qed.
+Lemma forallb_skipn : forall {A} (f : A -> bool) l k, forallb f l = true -> forallb f (skipn k l) = true.
+Proof.
+  induction l; intros [| k] H; cbn [skipn forallb] in *; auto.
+  apply andb_true_iff in H. destruct H as [H1 H2]. auto.
+Qed.
+
+(* ================================================================== completeness: generate => verify *)
+Section GenerateVerifies.
+Variable P : Params.
+Hypothesis MF : MathFacts P.
+Hypothesis Hn256 : cn P < 2 ^ 256.
+Notation G := (Curve.G P).
+Notation pmul := (Curve.pmul P).
+
+Definition sc_rng (s : Z) : Prop := 0 <= s < cn P.
+
+Lemma genrand_loop_spec : forall k i buf bs, genrand_loop P k i buf = Some bs -> length bs = k /\ Forall sc_rng bs.
+Proof.
+  induction k as [| k IH]; cbn [genrand_loop]; intros i buf bs H.
+  - inversion H; subst. split; [reflexivity | constructor].
+  - destruct (sc_of_b32 P (sha256 (le_enc 4 i ++ skipn 4 buf))) as [s ov] eqn:E.
+    destruct ov; [discriminate |].
+    destruct (genrand_loop P k (i + 1) (sha256 (le_enc 4 i ++ skipn 4 buf) ++ skipn 32 (le_enc 4 i ++ skipn 4 buf))) as [l |] eqn:El;
+      [| discriminate].
+    inversion H; subst bs. destruct (IH _ _ _ El) as [L F].
+    split; [cbn [length]; f_equal; exact L | constructor; [exact (sc_of_b32_range P MF _ _ _ E) | exact F]].
+Qed.
+
+Lemma upd_split : forall {A} (l : list A) i v, (i < length l)%nat -> upd i v l = firstn i l ++ v :: skipn (S i) l.
+Proof.
+  induction l; intros [| i] v H; cbn [length] in H; try lia; [reflexivity |].
+  cbn [upd firstn skipn app]. f_equal. apply IHl. lia.
+Qed.
+
+Lemma compute_public_keys_fst : forall in_tags i used out idx idx' j j',
+  fst (compute_public_keys P in_tags i used out idx j) = fst (compute_public_keys P in_tags i used out idx' j').
+Proof.
+  induction in_tags as [| t rest IH]; intros i used out idx idx' j j'; cbn [compute_public_keys]; [reflexivity |].
+  destruct (bit_test used i).
+  - specialize (IH (i + 1) used out idx idx' (j + 1) (j' + 1)).
+    destruct (compute_public_keys P rest (i + 1) used out idx (j + 1)) as [k1 r1].
+    destruct (compute_public_keys P rest (i + 1) used out idx' (j' + 1)) as [k2 r2].
+    cbn [fst] in *. f_equal. exact IH.
+  - apply IH.
+Qed.
+
+Lemma load_scalars_written : forall ss, Forall sc_rng ss -> load_scalars P (map sc_to_b32 ss) = Some ss.
+Proof.
+  induction 1 as [| s l Hs F IH]; [reflexivity |]. cbn [map load_scalars]. unfold sc_of_b32.
+  unfold sc_rng in Hs. rewrite be_val_sc_to_b32 by lia.
+  destruct (Z.leb_spec (cn P) s); [lia |]. rewrite Z.mod_small by lia. rewrite IH. reflexivity.
+Qed.
+
+Lemma sj_Forall_firstn : forall {A} (Q : A -> Prop) l k, Forall Q l -> Forall Q (firstn k l).
+Proof. induction l; intros [| k] H; cbn [firstn]; auto. inversion H; subst. constructor; auto. Qed.
+Lemma sj_Forall_skipn : forall {A} (Q : A -> Prop) l k, Forall Q l -> Forall Q (skipn k l).
+Proof. induction l; intros [| k] H; cbn [skipn]; auto. inversion H; subst. auto. Qed.
+
+(* generation with a blinding-key difference that matches the ring key at the signer's position yields a
+   proof that verifies against the same ephemeral tags.  Premises besides MathFacts and n < 2^256:
+   - the ring has one key per set bit of the bitmap (true for bitmaps without padding bits),
+   - the signer's ring key is bkey*G (the property's "matching blinding keys"),
+   - no ring key is the point at infinity (no selected input equals the output),
+   - the hash-derived forged scalars are non-zero (fails with probability 2^-256 per scalar). *)
+Lemma generate_verifies_lemma : forall pr in_tags out_tag input_index in_key out_key pr' pubs ridx bkey,
+  sp_n pr <= 256 ->
+  compute_public_keys P in_tags 0 (sp_used pr) (tag_load out_tag) input_index 0 = (pubs, ridx) ->
+  bkey = sc_add P (fst (sc_of_b32 P out_key)) (sc_neg P (fst (sc_of_b32 P in_key))) ->
+  length pubs = Z.to_nat (n_used_inputs pr) -> 0 <= ridx < n_used_inputs pr ->
+  nth (Z.to_nat ridx) pubs None = pmul bkey G ->
+  forallb ninf pubs = true ->
+  (forall bs, genrand P (Z.to_nat (n_used_inputs pr)) bkey = Some bs -> forallb nz bs = true) ->
+  generate P pr in_tags out_tag input_index in_key out_key = Some pr' ->
+  verify P pr' in_tags out_tag = true.
+Proof.
+  intros pr in_tags out_tag input_index in_key out_key pr' pubs ridx bkey
+         Hn Hcpk Hbkey Lpubs Hridx Hkey Hninf Hforged H.
+  unfold generate in H.
+  destruct (sc_of_b32 P in_key) as [tmps ov1]. destruct ov1; [discriminate |].
+  destruct (sc_of_b32 P out_key) as [bk ov2]. destruct ov2; [discriminate |].
+  destruct (existsb (fun t => bytes_eqb t out_tag) in_tags); [discriminate |].
+  cbn [fst] in Hbkey. rewrite <- Hbkey in H.
+  destruct ((n_total_inputs pr <? n_used_inputs pr) || negb (n_total_inputs pr =? Z.of_nat (length in_tags))) eqn:Hcnt;
+    [discriminate |].
+  rewrite Hcpk in H.
+  set (nu := Z.to_nat (n_used_inputs pr)) in *.
+  set (msg := genmessage in_tags out_tag) in *.
+  destruct (genrand P nu bkey) as [bs |] eqn:Egr; [| discriminate].
+  destruct (borromean_sign P (upd (Z.to_nat ridx) 0 bs) pubs [nth (Z.to_nat ridx) bs 0] [bkey] [nu] [Z.to_nat ridx] 1 msg)
+    as [[e0 s'] |] eqn:Eb; [| discriminate].
+  inversion H; subst pr'. clear H.
+  pose proof (Hforged bs eq_refl) as Hnz.
+  destruct (genrand_loop_spec _ _ _ _ Egr) as [Lbs Fbs].
+  set (x := Z.to_nat ridx) in *.
+  assert (Hx : (x < nu)%nat) by (unfold x, nu; lia).
+  assert (Rbkey : 0 <= bkey < cn P) by (rewrite Hbkey; unfold sc_add, madd; apply Z.mod_pos_bound; apply (n_pos P MF)).
+  assert (Rnonce : 0 <= nth x bs 0 < cn P).
+  { rewrite Forall_forall in Fbs. apply Fbs. apply nth_In. lia. }
+  assert (Hupd : upd x 0 bs = firstn x bs ++ 0 :: skipn (S x) bs) by (apply upd_split; lia).
+  destruct (list_split_at pubs x None ltac:(lia)) as [Epp Lp1]. rewrite Hkey in Epp.
+  set (s_pre := firstn x bs) in *. set (s_suf := skipn (S x) bs) in *.
+  set (p_pre := firstn x pubs) in *. set (p_suf := skipn (S x) pubs) in *.
+  assert (Ls1 : length s_pre = x) by (unfold s_pre; rewrite firstn_length; lia).
+  assert (Hprelen : length s_pre = length p_pre) by lia.
+  assert (Hsuflen : length s_suf = length p_suf) by (unfold s_suf, p_suf; rewrite !skipn_length; lia).
+  assert (Lupd : length (s_pre ++ 0 :: s_suf) = nu).
+  { rewrite app_length. cbn [length]. unfold s_suf. rewrite skipn_length. lia. }
+  assert (Eb' : borromean_sign P (s_pre ++ 0 :: s_suf) (p_pre ++ pmul bkey G :: p_suf) [nth x bs 0] [bkey]
+                  [length (s_pre ++ 0 :: s_suf)] [length s_pre] 1 msg = Some (e0, s')).
+  { rewrite Lupd, Ls1, <- Hupd, <- Epp. exact Eb. }
+  assert (Hinfx : is_inf (pmul bkey G) = false).
+  { rewrite Epp in Hninf. rewrite forallb_app in Hninf. apply andb_true_iff in Hninf. destruct Hninf as [_ Hq].
+    cbn [forallb] in Hq. apply andb_true_iff in Hq. destruct Hq as [Hq _]. unfold ninf in Hq. apply negb_true_iff in Hq. exact Hq. }
+  assert (Hfp1 : forallb ninf p_pre = true) by (unfold p_pre; apply forallb_firstn; exact Hninf).
+  assert (Hfp2 : forallb ninf p_suf = true) by (unfold p_suf; apply forallb_skipn; exact Hninf).
+  assert (Hfs1 : forallb nz s_pre = true) by (unfold s_pre; apply forallb_firstn; exact Hnz).
+  assert (Hfs2 : forallb nz s_suf = true) by (unfold s_suf; apply forallb_skipn; exact Hnz).
+  destruct (ring1_sign_verifies P MF msg s_pre 0 s_suf p_pre p_suf (nth x bs 0) bkey e0 s'
+              Hprelen Hsuflen Rnonce Rbkey Hfs1 Hfs2 Hfp1 Hfp2 Hinfx Eb') as (Hv & snew & Es' & Rnew & Le0).
+  rewrite Lupd, <- Epp in Hv.
+  assert (Fs' : Forall sc_rng s').
+  { rewrite Es'. apply Forall_app. split; [unfold s_pre; apply sj_Forall_firstn; exact Fbs |].
+    constructor; [unfold sc_rng; lia | unfold s_suf; apply sj_Forall_skipn; exact Fbs]. }
+  assert (Ls' : length s' = nu) by (rewrite Es'; rewrite app_length; cbn [length]; unfold s_suf; rewrite skipn_length; lia).
+  (* the verifier's view of the written proof *)
+  unfold verify, n_total_inputs, n_used_inputs, used_prefix. cbn [sp_n sp_used sp_data].
+  fold (used_prefix pr). fold (n_used_inputs pr).
+  unfold n_total_inputs in Hcnt.
+  apply orb_false_iff in Hcnt. destruct Hcnt as [Hc1 Hc2]. rewrite Hc1, Hc2. apply Z.ltb_ge in Hc1.
+  destruct (Z.eqb_spec (n_used_inputs pr) 0); [lia |]. cbn [orb].
+  unfold SJ_MAX_USED_INPUTS. destruct (Z.ltb_spec 256 (n_used_inputs pr)); [lia |].
+  fold nu. unfold data_chunks. rewrite <- app_assoc. rewrite <- Ls' at 1.
+  rewrite (chunks_of_written_sig e0 s' _ Le0).
+  rewrite (load_scalars_written _ Fs').
+  rewrite (firstn_app_exact e0 _ 32 Le0).
+  rewrite (compute_public_keys_fst in_tags 0 (sp_used pr) (tag_load out_tag) 0 input_index 0 0), Hcpk. cbn [fst].
+  fold msg. exact Hv.
+Qed.
+End GenerateVerifies.
